@@ -13,7 +13,7 @@ INTERNAL = ("MemoIsListing", "MemIsServed")
 NODE_PROPS = ["ListingIsTranslation", "ListedIffLookup", "InodesUniqueStable", "OpaqueXattr", "StateFileJSON", "StateDirHidden"]
 NODE_PROPS += [p + "A" for p in NODE_PROPS]
 
-RAWU7 = '{"a", ".wh.a", ".wh..wh..opq", ".prefetch.landmark", ".no.prefetch.landmark", "stargz.index.json", ".wh..wh.foo"}'
+RAWU7 = '{"a", ".wh.a", ".wh..wh..opq", ".prefetch.landmark", ".no.prefetch.landmark", "stargz.index.json", ".wh..wh.foo", "l"}'
 RAWU8 = RAWU7[:-1] + ', ".wh..prefetch.landmark"}'
 EXTRA3 = '{{"a", ".wh.a", ".wh..wh..opq"}, {".wh.a", ".wh..wh.foo", ".prefetch.landmark", "stargz.index.json"}, ' \
          '{"a", ".wh..wh.foo", ".no.prefetch.landmark"}}'
@@ -90,7 +90,7 @@ def check(run):
                        "replayed on real nodes of real eStargz layers over both metadata stores; non-trivial = trace has a Lookup and a Readdir; "
                        "Overlay: stacks of real served trees merged by TLC and compared with ApplyOCI; distinct by hash")
     run.assumptions += [
-        "names: universe of 7 (thorough 8) raw names per directory, 12 (13) lookup names; file kinds reg/dir only; layers of depth two",
+        "names: universe of 8 (thorough 9) raw names per directory incl. one hard link l -> a, 13 (14) lookup names; kinds reg/dir/hard link; layers of depth two",
         "the go-fuse bridge is emulated: a successful Lookup adds the child to the Inode tree, FORGET removes it; no kernel mount",
         "overlayfs is the operator OverlayMerge of Overlay.tla (lookup/merge rules of lower directories), not the kernel",
         "a root stargz.index.json / root landmarks are eStargz artefacts, not content of the OCI layer (ApplyOCI leaves them out)",
@@ -99,7 +99,7 @@ def check(run):
     ]
     rawu = RAWU8 if thorough else RAWU7
     lookupu = ['a', '.wh.a', 'foo', '.wh.foo', '.wh..wh.foo', '.wh..opq', '.wh..wh..opq', '.prefetch.landmark', '.no.prefetch.landmark',
-               'stargz.index.json', 'zz', '.stargz-snapshotter'] + (['.wh..prefetch.landmark'] if thorough else [])
+               'stargz.index.json', 'zz', '.stargz-snapshotter', 'l'] + (['.wh..prefetch.landmark'] if thorough else [])
     base = {"RawU": rawu, "LookupU": tla_set(lookupu)}
 
     # R: both drivers read their input from TLC output; one go test per metadata store runs both drivers.
@@ -167,6 +167,7 @@ def design_level(run, thorough, base):
                      ({"OpaqueByMode": "FALSE"}, ["OpaqueXattr", "OpaqueXattrA"]),
                      ({"WhiteoutAttr": "FALSE"}, ["ListedIffLookup", "ListedIffLookupA", "InodesUniqueStable", "InodesUniqueStableA"]),
                      ({"MemWhiteoutAttr": "FALSE"}, ["ListedIffLookup", "ListedIffLookupA"]),
+                     ({"HardLinkSharesInode": "FALSE"}, ["InodesUniqueStable", "InodesUniqueStableA"]),
                      ({"WriterDropsToc": "FALSE"}, ["ListingIsTranslation"])):
         ctl.append(lambda ovr=ovr, exp=exp: run.tlc_negctl("Node", "Node_mc.cfg", dict(small, **ovr), exp, drop=INTERNAL, workers=2))
     for ovr in ({"RealWins": "FALSE"}, {"OpaqueOn": "FALSE"}, {"MountKeyMatches": "FALSE", "Modes": '{"trusted", "user"}'}):
@@ -209,9 +210,9 @@ def prepare_nodes(run, thorough, base):
     # out of Readdir / Lookup / Forget of the served names on two small directories (call orders, not just edges)
     seqs = all_sequences(inits, edges, lambda i: i["isRoot"] and not i["src"],
                          lambda l: l["act"] in ("StatLookup", "StatGetattr", "Progress", "Report", "StatRead"), 5 if thorough else 4)
-    for content in (["a", ".wh.a"], [".wh.a", ".wh..wh.foo"]):
+    for content in (["a", ".wh.a"], [".wh.a", ".wh..wh.foo"], ["a", "l"]):
         seqs += all_sequences(inits, edges, lambda i: not i["isRoot"] and sorted(i["src"]) == sorted(content),
-                              lambda l: l["act"] in ("Readdir", "Forget") or (l["act"] == "Lookup" and l["n"] in ("a", ".wh.foo", "zz")), 3)
+                              lambda l: l["act"] in ("Readdir", "Forget") or (l["act"] == "Lookup" and l["n"] in ("a", ".wh.foo", "zz", "l")), 3)
     walks += seqs
     st["sequences"] = len(seqs)
     log("[walks] node: %s" % st)
